@@ -31,6 +31,41 @@ from .common import grid_json, prices_json, instant
 NAME = 'storage'
 TOL = 1e-9
 
+# ------------------------------------------------------------------ registered theorems about the storage builder
+# (module, theorem, one-line reading); audited with `#print axioms` by the property checks that list them
+THEOREMS_C08_STORAGE = [
+    ('EAO.Properties.C08Storage', 'EAO.C08.storage_built_wf',
+     'whatever buildStorage returns (all options) is well formed: one bound pair per variable, row columns and mapping variables below the number of variables, own name, dispatch rows at its own nodes and at steps of the restricted grid, no N rows'),
+    ('EAO.Properties.C08Storage', 'EAO.C08.empty_window_always_ok_storage',
+     'on a restricted grid without steps the set-up succeeds for any parameters, price data and block positions and returns the empty problem'),
+    ('EAO.Properties.C08Storage', 'EAO.C08.empty_window_inert_storage',
+     'a storage whose window misses the horizon has no variable, no row and no mapping row'),
+    ('EAO.Properties.C08Storage', 'EAO.C08.vars_only_in_window_storage',
+     'every mapping row of a storage (dispatch in/out and both kinds of boolean) sits at a step of the restricted grid = window clipped to the horizon'),
+    ('EAO.Properties.C08Storage', 'EAO.C08.no_dispatch_outside_window_storage',
+     'for every x, node and step outside the restricted grid the dispatch read-out of the storage is 0'),
+    ('EAO.Properties.C08Storage', 'EAO.C08.no_charge_outside_window_storage',
+     'for every x the reported charge and discharge are 0 at every step outside the window'),
+    ('EAO.Properties.C08Storage', 'EAO.C08.fill_level_constant_outside_window_storage',
+     'for every x the reported fill level does not change at a step outside the window (start level before, last level after)'),
+]
+THEOREMS_C12_STORAGE = [
+    ('EAO.Properties.C12Storage', 'EAO.C12.limits_follow_dt_storage',
+     'the bounds of the storage dispatch variables are -cap_in*dt_t (charge) and cap_out*dt_t (discharge) with dt_t the length of step t, in both variable forms and with all options'),
+    ('EAO.Properties.C12Storage', 'EAO.C12.limits_total_storage',
+     'the per-step limits add up to rate x elapsed time whatever the step lengths'),
+    ('EAO.Properties.C12Storage', 'EAO.C12.unit_change_storage',
+     'step lengths times k > 0, cap_in/cap_out/inflow/cost_store times 1/k, max_store_duration times k, everything else untouched: buildStorage returns literally the same result (all fields, or the same error)'),
+    ('EAO.Properties.C12Storage', 'EAO.C12.guards_rescale',
+     'the constructor guards accept the rescaled storage iff they accept the original'),
+    ('EAO.Properties.C12Storage', 'EAO.C12.unit_change_mk_storage',
+     'constructor guards plus set-up give the same result in both units'),
+    ('EAO.Properties.C12Storage', 'EAO.C12.unit_change_fill_level',
+     'the reported fill level is the same function of mapping and x in both units'),
+    ('EAO.Properties.C12Storage', 'EAO.C12.unit_change_charge',
+     'the reported charge and discharge are the same in both units'),
+]
+
 # ------------------------------------------------------------------ generator
 BLOCKS = ['4h', '8h', 'd', '6h', '2h', '12h', '3h']
 TICK_S = {'4h': 4 * 3600, '8h': 8 * 3600, '6h': 6 * 3600, '2h': 2 * 3600, '12h': 12 * 3600, '3h': 3 * 3600}
